@@ -1,3 +1,3 @@
 SPECIFICATION TraceSpec
-CONSTANTS Pfx = {"A", "B", "C"} MaxHops = 3 MaxCid = 1000000 QCap = 100 MaxDepth = 1000000 LeakDetached = FALSE AnyState = FALSE MaxInst = 1000000 Lifecycle = TRUE UnloadClears = FALSE CandInit = {TRUE, FALSE} CloseWays = {"close", "closeR", "remove", "removeR", "removeNow", "removeD"} ReasonDecides = FALSE ReadyInit = FALSE
+CONSTANTS Pfx = {"A", "B", "C"} MaxHops = 3 MaxCid = 1000000 QCap = 100 MaxDepth = 1000000 LeakDetached = FALSE AnyState = FALSE MaxInst = 1000000 Lifecycle = TRUE UnloadClears = FALSE CandInit = {TRUE, FALSE} CloseWays = {"close", "closeR", "remove", "removeR", "removeNow", "removeD"} ReasonDecides = FALSE ReadyInit = FALSE Expiry = TRUE
 INVARIANT TraceAccepted
